@@ -49,7 +49,8 @@ def run(ctx):
             con = campaign.realizable(prog)
             for v in vals:
                 camp.roundtrip_from_value(prog, con, v, kw, ("C02.self",))
-            for data in [bytes(t) for n2 in (1, 2, 3) for t in itertools.product([0x00, 0x5a, 0xab, 0xff], repeat=n2)] + [b"abc\x02\xab\xcd\x09", b"\x01\x03\xab\xcd\xef", b"\x02\xab\xcd"]:
+            for data in [bytes(t) for n2 in (1, 2, 3) for t in itertools.product([0x00, 0x5a, 0xab, 0xff], repeat=n2)] + [b"abc\x02\xab\xcd\x09", b"\x01\x03\xab\xcd\xef", b"\x02\xab\xcd",
+                                                                                                                               b"\x01\x02\x03\x04", b"\x01\x02\x03\x04\x05", b"\x05\x01\x02\x03\x04\x05", b"\x01\x02\x03\x04\x05\x06", b"\x07\x06abcdef\x09", b"\x01\x02\x03\x04\x05\x06\x07\x08"]:
                 camp.roundtrip_from_bytes(prog, con, data, kw)
         camp.sh.maybe_flush()
         gallery_formats(ctx, camp)
